@@ -242,6 +242,36 @@ theorem chain_parse : ∀ (is : List Item) (tks : List Tok) (rest : List Nat) (p
       | error e => rfl
       | ok p' => exact ih tks rest p' h2
 
+theorem applyAll_congr : ∀ (tks tks' : List Tok) (p : Parsed),
+    tks.map (·.set) = tks'.map (·.set) → applyAll tks p = applyAll tks' p := by
+  intro tks
+  induction tks with
+  | nil =>
+    intro tks' p h
+    cases tks' with
+    | nil => rfl
+    | cons _ _ => simp at h
+  | cons tk tks ih =>
+    intro tks' p h
+    cases tks' with
+    | nil => simp at h
+    | cons tk' tks' =>
+      simp only [List.map_cons, List.cons.injEq] at h
+      simp only [applyAll, h.1]
+      cases tk'.set p with
+      | error e => rfl
+      | ok p' => exact ih tks' p' h.2
+
+/-- a closed resolution result can be checked through a `Bool` (core `Except` has no `DecidableEq`) -/
+theorem rp_eq_of_check {α} [DecidableEq α] (r : Parsed.RP α) (v : α)
+    (h : (match r with | .ok (.ok a) => decide (a = v) | _ => false) = true) : r = .ok (.ok v) := by
+  cases r with
+  | panic => cases h
+  | ok x =>
+    cases x with
+    | error e => cases h
+    | ok a => simp only [decide_eq_true_eq] at h; rw [h]
+
 /-! ### literals and white space -/
 
 theorem literal_inverts (lit rest : List Nat) : InvertsAt (.literal lit) ⟨lit, .ok⟩ rest := by
@@ -376,5 +406,179 @@ theorem write_n3_numText (v : Nat) (hv : v < 1000) (pad : Pad) :
   · exact this.1.1
   · exact this.1.2
   · exact this.2
+
+/-- the two-digit writer of the century (`%C`, `write_n 2`) -/
+theorem write_n2_numText (v : Nat) (hv : v < 100) (pad : Pad) :
+    numText (Format.write_n 2 (v : Int) pad false) (v : Int) 2 (pad == .zero) = true := by
+  have key : ∀ v : Nat, v < 100 →
+      (numText (Format.write_n 2 (v : Int) .none false) (v : Int) 2 false &&
+       numText (Format.write_n 2 (v : Int) .zero false) (v : Int) 2 true &&
+       numText (Format.write_n 2 (v : Int) .space false) (v : Int) 2 false) = true := by decide +kernel
+  have := key v hv
+  simp only [Bool.and_eq_true] at this
+  cases pad
+  · exact this.1.1
+  · exact this.1.2
+  · exact this.2
+
+theorem stops_or_zero (pad : Pad) (rest : List Nat) (h : StopsDigits rest ∨ pad = .zero) :
+    StopsDigits rest ∨ (pad == .zero) = true := by
+  rcases h with h | h
+  · exact Or.inl h
+  · right; subst h; rfl
+
+/-! ### am/pm -/
+
+theorem or32_of_lowerB (a x : Nat) (hx : 97 ≤ x ∧ x ≤ 122) (h : lowerB a = x) : or32 a = x := by
+  unfold lowerB at h
+  unfold or32
+  split at h <;> split <;> omega
+
+/-- `%p`/`%P` read `AM`/`PM` in any letter case -/
+theorem ampm_inverts (f : Fixed) (hf : f = .lowerAmPm ∨ f = .upperAmPm) (pm : Bool) (a b : Nat)
+    (rest : List Nat) (ha : lowerB a = (if pm then 112 else 97)) (hb : lowerB b = 109) :
+    InvertsAt (.fixed f) ⟨[a, b], fun p => p.set_ampm pm⟩ rest := by
+  intro p
+  have hb' : or32 b = 109 := or32_of_lowerB b 109 (by omega) hb
+  have ha' : or32 a = (if pm then 112 else 97) := by
+    cases pm
+    · exact or32_of_lowerB a 97 (by omega) ha
+    · exact or32_of_lowerB a 112 (by omega) ha
+  rcases hf with rfl | rfl <;> cases pm <;>
+    simp [step, Parse.parseItemBase, Parse.parseFixedBase, ha', hb', Except.map] at ha' ⊢ <;>
+    cases p.set_ampm _ <;> rfl
+
+/-! ### names: read in any letter case -/
+
+theorem or32_alpha (x : Nat) (hx : isAsciiAlpha x = true) :
+    or32 x = lowerB x ∧ 97 ≤ lowerB x ∧ lowerB x ≤ 122 := by
+  simp only [isAsciiAlpha, Bool.or_eq_true, Bool.and_eq_true, decide_eq_true_eq] at hx
+  unfold or32 lowerB
+  split <;> split <;> omega
+
+theorem or32_of_case (a x : Nat) (hx : isAsciiAlpha x = true) (h : lowerB a = lowerB x) :
+    or32 a = or32 x := by
+  obtain ⟨h1, h2⟩ := or32_alpha x hx
+  rw [h1]; exact or32_of_lowerB a _ h2 h
+
+theorem short_name_reads (tbl : List (List Nat)) (a b c i : Nat) (t rest : List Nat)
+    (ha : isAsciiAlpha a = true) (hb : isAsciiAlpha b = true) (hc : isAsciiAlpha c = true)
+    (hidx : findIdx tbl [or32 a, or32 b, or32 c] = some i) (ht : lowerS t = lowerS [a, b, c]) :
+    short_name tbl (t ++ rest) = .ok (rest, i) := by
+  have hl : t.length = 3 := by simpa [lowerS] using congrArg List.length ht
+  rcases t with _ | ⟨a', _ | ⟨b', _ | ⟨c', _ | ⟨d', t'⟩⟩⟩⟩ <;> simp at hl
+  simp only [lowerS, List.map_cons, List.map_nil, List.cons.injEq, and_true] at ht
+  obtain ⟨h1, h2, h3⟩ := ht
+  simp only [short_name, List.cons_append, List.nil_append, or32_of_case a' a ha h1,
+    or32_of_case b' b hb h2, or32_of_case c' c hc h3, hidx]
+
+theorem eatSuffix_reads (suf tsuf rest : List Nat) (h : lowerS tsuf = lowerS suf) :
+    eatSuffix (tsuf ++ rest) suf = rest := by
+  have hl : tsuf.length = suf.length := by simpa [lowerS] using congrArg List.length h
+  unfold eatSuffix
+  rw [← hl, List.take_left, List.drop_left, if_pos ⟨by simp, h⟩]
+
+/-- a name `n3 ++ nsuf` in any letter case splits into its three-letter head and the rest -/
+theorem split_case (t n3 nsuf : List Nat) (h3 : n3.length = 3) (h : lowerS t = lowerS (n3 ++ nsuf)) :
+    lowerS (t.take 3) = lowerS n3 ∧ lowerS (t.drop 3) = lowerS nsuf := by
+  unfold lowerS at *
+  constructor
+  · rw [List.map_take, h, List.map_append, List.take_left' (by simp [h3])]
+  · rw [List.map_drop, h, List.map_append, List.drop_left' (by simp [h3])]
+
+/-- table facts, checked on the extracted tables: the default short month name `m0` is three ASCII
+letters that the reader's table maps to `m0`, and the long name is the short one plus the reader's
+suffix (up to letter case) -/
+def monthNameOk (m0 : Nat) : Bool :=
+  match Extracted.LOC_SHORT_MONTHS.getD m0 [] with
+  | [a, b, c] =>
+    isAsciiAlpha a && isAsciiAlpha b && isAsciiAlpha c &&
+    findIdx Extracted.SHORT_MONTHS [or32 a, or32 b, or32 c] == some m0 &&
+    (Extracted.LOC_LONG_MONTHS.getD m0 []).take 3 == [a, b, c] &&
+    lowerS ((Extracted.LOC_LONG_MONTHS.getD m0 []).drop 3) == lowerS (Extracted.LONG_MONTH_SUFFIXES.getD m0 [])
+  | _ => false
+
+theorem monthNames_ok : ∀ m0 : Nat, m0 < 12 → monthNameOk m0 = true := by decide
+
+/-- `%b`/`%h` and `%B`: the default month names are read back in any letter case -/
+theorem month_name_reads (m0 : Nat) (hm : m0 < 12) (t rest : List Nat) :
+    (lowerS t = lowerS (Extracted.LOC_SHORT_MONTHS.getD m0 []) → short_month0 (t ++ rest) = .ok (rest, m0)) ∧
+    (lowerS t = lowerS (Extracted.LOC_LONG_MONTHS.getD m0 []) → short_or_long_month0 (t ++ rest) = .ok (rest, m0)) := by
+  have hk := monthNames_ok m0 hm
+  unfold monthNameOk at hk
+  split at hk
+  · rename_i a b c hs
+    simp only [Bool.and_eq_true, beq_iff_eq] at hk
+    obtain ⟨⟨⟨⟨⟨ha, hb⟩, hc⟩, hidx⟩, htake⟩, hsuf⟩ := hk
+    constructor
+    · intro ht
+      rw [hs] at ht
+      exact short_name_reads _ a b c m0 t rest ha hb hc hidx ht
+    · intro ht
+      have hlong : Extracted.LOC_LONG_MONTHS.getD m0 [] = [a, b, c] ++ (Extracted.LOC_LONG_MONTHS.getD m0 []).drop 3 := by
+        rw [← htake, List.take_append_drop]
+      rw [hlong] at ht
+      obtain ⟨h3, hd⟩ := split_case t [a, b, c] _ rfl ht
+      have e : t ++ rest = t.take 3 ++ (t.drop 3 ++ rest) := by
+        rw [← List.append_assoc, List.take_append_drop]
+      unfold short_or_long_month0 short_month0
+      rw [e, short_name_reads _ a b c m0 (t.take 3) _ ha hb hc hidx h3]
+      simp only
+      rw [eatSuffix_reads _ _ rest (hd.trans hsuf)]
+  · cases hk
+
+/-- the same facts for weekdays; names are indexed by `num_days_from_sunday` in the writer's
+tables, by `num_days_from_monday` in the reader's suffix table -/
+def weekdayNameOk (w : Weekday) : Bool :=
+  match Extracted.LOC_SHORT_WEEKDAYS.getD w.num_days_from_sunday [] with
+  | [a, b, c] =>
+    isAsciiAlpha a && isAsciiAlpha b && isAsciiAlpha c &&
+    (match findIdx Extracted.SHORT_WEEKDAYS [or32 a, or32 b, or32 c] with
+     | some i => weekdayOfIdx i == some w
+     | none => false) &&
+    (Extracted.LOC_LONG_WEEKDAYS.getD w.num_days_from_sunday []).take 3 == [a, b, c] &&
+    lowerS ((Extracted.LOC_LONG_WEEKDAYS.getD w.num_days_from_sunday []).drop 3) ==
+      lowerS (Extracted.LONG_WEEKDAY_SUFFIXES.getD w.num_days_from_monday [])
+  | _ => false
+
+theorem weekdayNames_ok (w : Weekday) : weekdayNameOk w = true := by cases w <;> decide
+
+theorem weekday_name_reads (w : Weekday) (t rest : List Nat) :
+    (lowerS t = lowerS (Extracted.LOC_SHORT_WEEKDAYS.getD w.num_days_from_sunday []) →
+      short_weekday (t ++ rest) = .ok (rest, w)) ∧
+    (lowerS t = lowerS (Extracted.LOC_LONG_WEEKDAYS.getD w.num_days_from_sunday []) →
+      short_or_long_weekday (t ++ rest) = .ok (rest, w)) := by
+  have hk := weekdayNames_ok w
+  unfold weekdayNameOk at hk
+  split at hk
+  · rename_i a b c hs
+    simp only [Bool.and_eq_true, beq_iff_eq] at hk
+    obtain ⟨⟨⟨⟨⟨ha, hb⟩, hc⟩, hidx⟩, htake⟩, hsuf⟩ := hk
+    split at hidx
+    · rename_i i hi
+      simp only [beq_iff_eq] at hidx
+      have hshort : ∀ (t' r : List Nat), lowerS t' = lowerS [a, b, c] → short_weekday (t' ++ r) = .ok (r, w) := by
+        intro t' r ht'
+        unfold short_weekday
+        rw [short_name_reads _ a b c i t' r ha hb hc hi ht']
+        simp only [hidx]
+      constructor
+      · intro ht
+        rw [hs] at ht
+        exact hshort t rest ht
+      · intro ht
+        have hlong : Extracted.LOC_LONG_WEEKDAYS.getD w.num_days_from_sunday [] =
+            [a, b, c] ++ (Extracted.LOC_LONG_WEEKDAYS.getD w.num_days_from_sunday []).drop 3 := by
+          rw [← htake, List.take_append_drop]
+        rw [hlong] at ht
+        obtain ⟨h3, hd⟩ := split_case t [a, b, c] _ rfl ht
+        have e : t ++ rest = t.take 3 ++ (t.drop 3 ++ rest) := by
+          rw [← List.append_assoc, List.take_append_drop]
+        unfold short_or_long_weekday
+        rw [e, hshort (t.take 3) _ h3]
+        simp only
+        rw [eatSuffix_reads _ _ rest (hd.trans hsuf)]
+    · cases hidx
+  · cases hk
 
 end Chrono.Proofs.RoundTrip
